@@ -455,8 +455,8 @@ fn gen_tree(ctx: &Ctx, sink: &mut dyn FnMut(String)) {
         }
     }
     // random: 1–3 mutations of packages from other seeds
-    let n = if ctx.tier == Tier::Thorough { 60_000 } else { 1_500 };
-    let n_bases = if ctx.tier == Tier::Thorough { 300 } else { 25 };
+    let n = if ctx.tier == Tier::Thorough { 15_000 } else { 1_500 };
+    let n_bases = if ctx.tier == Tier::Thorough { 150 } else { 25 };
     let bases: Vec<Package> = (0..n_bases).map(|i| export_package(ctx.seed.wrapping_mul(1000) + i, 0)).collect();
     for _ in 0..n {
         let mut p = r.pick(&bases).clone();
@@ -494,7 +494,7 @@ fn eval_tree(req: &str) -> ImplOut {
 
 fn gen_raw(ctx: &Ctx, sink: &mut dyn FnMut(String)) {
     let mut r = Rng::new(ctx.seed ^ 0x25AA);
-    let n = if ctx.tier == Tier::Thorough { 40_000 } else { 1_200 };
+    let n = if ctx.tier == Tier::Thorough { 20_000 } else { 1_200 };
     for kind in ["empty", "notzip", "intact"] {
         sink(format!("c25 raw 1 {kind} 0 0"));
     }
